@@ -316,6 +316,35 @@ def case_block_fragment(rng, cid):
     return RCase("C02", code, "block_fragment" + ("/nodeps" if nd else "") + ("/async" if asy else ""))
 
 
+def case_generic_orders(i, cid):
+    """C01: generic parameter lists in unusual but legal orders (a const or another type parameter declared before the dependency's),
+    and modules whose first function has an unbounded dependency; fixed programs, no random choices"""
+    if i == 0:
+        fn, call0, call1, want = ("pub fn f<const N: usize, D: A>(deps: &D, a: [i64; N], b: i64) -> i64 { rec(format!(\"f@{}|{:?}\", addr(deps), [a[0], a[N - 1], b])); a[0] * 100 + a[N - 1] * 10 + b }",
+                                  "f(&app, [1, 2, 3], 4)", "app.f([1, 2, 3], 4)", 134)
+    elif i == 1:
+        fn, call0, call1, want = ("pub fn f<T: Into<i64> + Copy, const N: usize, D: A>(deps: &D, t: T, a: [i64; N]) -> i64 { rec(format!(\"f@{}|{:?}\", addr(deps), [t.into(), a[0]])); t.into() * 10 + a[0] }",
+                                  "f(&app, 7i32, [5])", "app.f(7i32, [5])", 75)
+    elif i == 2:
+        fn, call0, call1, want = ("pub fn f<'x, T: Into<i64> + Copy, D: A>(deps: &'x D, t: &'x T) -> i64 { rec(format!(\"f@{}|{:?}\", addr(deps), [(*t).into()])); (*t).into() + 1 }",
+                                  "f(&app, &41i32)", "app.f(&41i32)", 42)
+    else:
+        code = ("pub mod k%d { use super::*;\n#[entrait(pub Tr)]\npub mod m { use super::*;\n"
+                "pub fn g0<D>(deps: &D, x: i64) -> i64 { rec(format!(\"g0@{}|{:?}\", addr(deps), [x])); x + 1 }\n"
+                "pub fn g1(deps: &impl A, x: i64) -> i64 { rec(format!(\"g1@{}|{:?}\", addr(deps), [x])); x + deps.a() as i64 * 0 + 2 }\n"
+                "pub fn g2<D: A>(deps: &D, x: i64) -> i64 { rec(format!(\"g2@{}|{:?}\", addr(deps), [x])); x + deps.a() as i64 * 0 + 3 }\n}\n"
+                "pub fn run() { let app = Impl::new(App { tag: 9 }); let mut ok = true; let mut all = vec![];\n"
+                "let r0 = m::g0(&app, 10); let t0 = take(); let r1 = app.g0(10); let t1 = take(); ok &= r0 == r1 && t0 == t1 && t0.len() == 1; all.push((t0, t1));\n"
+                "let r0 = m::g1(&app, 20); let t0 = take(); let r1 = app.g1(20); let t1 = take(); ok &= r0 == r1 && t0 == t1 && t0.len() == 1; all.push((t0, t1));\n"
+                "let r0 = m::g2(&app, 30); let t0 = take(); let r1 = app.g2(30); let t1 = take(); ok &= r0 == r1 && t0 == t1 && t0.len() == 1; all.push((t0, t1));\n"
+                "report(%d, \"C01\", ok, format!(\"{:?}\", all)); }\n}") % (cid, cid)
+        return RCase("C01", code, "generic_orders/mod_first_unbounded")
+    code = ("pub mod k%d { use super::*;\n#[entrait(pub Tr)]\n%s\n"
+            "pub fn run() { let app = Impl::new(App { tag: 8 }); let r0 = %s; let t0 = take(); let r1 = %s; let t1 = take();\n"
+            "report(%d, \"C01\", r0 == %d && r1 == %d && t0 == t1 && t0.len() == 1, format!(\"{:?} {:?}\", t0, t1)); }\n}") % (cid, fn, call0, call1, cid, want, want)
+    return RCase("C01", code, "generic_orders/%d" % i)
+
+
 def build_cases(seed, tier):
     rng = random.Random(seed * 211 + 3)
     k = 5 if tier == "thorough" else 1
@@ -334,6 +363,8 @@ def build_cases(seed, tier):
         cases.append(case_fragment(rng, len(cases)))
     for _ in range(6 * k):
         cases.append(case_block_fragment(rng, len(cases)))
+    for i in range(4):
+        cases.append(case_generic_orders(i, len(cases)))
     for i, c in enumerate(cases):
         c.cid = i
     return cases
